@@ -90,6 +90,22 @@ def run_property(prop, tier, hs, seed, jobs=6, mem=50, keep=False):
         finally:
             slots[h.overlay].put(tdir)
 
+    # the E3 queries (one z3 process, little memory) run alongside the CBMC pool
+    e3_out = []
+    e3_thread = None
+    if e3_hs:
+        import threading
+        import e3run
+
+        def run_e3():
+            try:
+                e3_out.extend(e3run.run(prop, e3_hs, scratch, logdir))
+            except Exception as e:  # noqa
+                for h in e3_hs:
+                    e3_out.append((h, {"harness": h.name, "verdict": "inconclusive", "detail": "E3 runner error: %r" % e, "wall_s": 0,
+                                       "checks": None, "time_s": None, "covers": {}, "failed_checks": []}))
+        e3_thread = threading.Thread(target=run_e3)
+        e3_thread.start()
     pool = X.Pool(budget_gb=mem, max_jobs=jobs)
     res = pool.run_all([(h.mem_gb, (lambda h=h: job(h))) for h in kani_hs])
     for h, r in zip(kani_hs, res):
@@ -99,9 +115,9 @@ def run_property(prop, tier, hs, seed, jobs=6, mem=50, keep=False):
             X.log("[%s] %-30s inconclusive   %s" % (prop, h.name, r["detail"]))
         results[h.name] = r
 
-    if e3_hs:
-        import e3run
-        for h, r in e3run.run(prop, e3_hs, scratch, logdir):
+    if e3_thread:
+        e3_thread.join()
+        for h, r in e3_out:
             results[h.name] = r
             X.log("[%s] %-30s %-13s %s" % (prop, h.name, r["verdict"], r["detail"]))
 
